@@ -18,6 +18,7 @@ package config
 //@   ensures[C18:bad-version-is-an-error] (ver != 4 && ver != 6) ==> ret1 != nil
 //@   ensures[C18:result-or-error] (ret1 == nil) <==> (ret0 != nil)
 //@   ensures[C18,internal:default-port-filled-in] ret1 == nil ==> ((portStr == "" && ver == 4) ==> ret0.Port == 67) && ((portStr == "" && ver == 6) ==> ret0.Port == 547)
+//@   ensures[C18,internal:written-port-is-used] (ret1 == nil && portStr != "") ==> ret0.Port == atoi(portStr)
 //@   ensures[C18,internal:wildcard-address-filled-in] ret1 == nil ==> ((ipStr == "" && ver == 4) ==> ret0.IP == net.IPv4zero) && ((ipStr == "" && ver == 6) ==> ret0.IP == net.IPv6unspecified)
 //@   ensures[C18,internal:zone-carried] ret1 == nil ==> ret0.Zone == ifname
 //@   ensures[C18:family-matches-protocol] ret1 == nil ==> (ret0.IP != nil && ((ver == 6) <==> !isv4(ret0.IP)))
